@@ -481,11 +481,17 @@ def rule_R2(ctx, repo):
     # check_fh
     fn = repo.func(VFC, "check_fh")
     pc = PathConditions(fn, Atomizer())
-    need = disj(atom("eq(len(fh@1), 0)"), atom("eq(len(fh), 0)"))
-    has_empty = any("eq(len(fh" in a for a in atoms_of_formula(pc.raises))
-    has_rel = any("is_relative" in a for a in atoms_of_formula(pc.raises))
-    ctx.check(has_empty and has_rel, "R2", "check_fh:predicate", "rejects empty horizons and absolute ones under enforce_relative",
-              "check_fh rejection condition is %s" % show(pc.raises), ctx.loc(mod, fn))
+    ats = atoms_of_formula(pc.raises)
+    e_atoms = [a for a in ats if a.startswith("eq(len(fh") and a.endswith(", 0)")]
+    r_atoms = [a for a in ats if a.endswith(".is_relative") and a.startswith("fh")]
+    if len(e_atoms) == 1 and len(r_atoms) == 1 and "enforce_relative" in ats:
+        spec = disj(atom(e_atoms[0]), conj(atom("enforce_relative"), neg(atom(r_atoms[0]))))
+        ok, wit = equivalent(pc.raises, spec)
+    else:
+        ok, wit = False, sorted(ats)
+    ctx.check(ok, "R2", "check_fh:predicate", "rejects exactly: empty horizon (whatever its type), absolute horizon under enforce_relative",
+              "check_fh rejection condition is %s (differs from `len(fh)==0 or (enforce_relative and not fh.is_relative)` at %s)" % (show(pc.raises), wit),
+              ctx.loc(mod, fn))
     wraps = [c for c in astq.calls(fn) if astq.call_name(c) == "ForecastingHorizon"]
     ok = bool(wraps) and all(any(k.arg == "is_relative" and astq.const_value(k.value) is True for k in c.keywords) for c in wraps)
     ctx.check(ok, "R2", "check_fh:wrap", "non-horizon input is wrapped as a relative horizon", "check_fh does not wrap with is_relative=True", ctx.loc(mod, fn))
@@ -832,6 +838,9 @@ def rule_R4(ctx, repo):
             if not isinstance(train, Rng):
                 ctx.undecided("R4", key, "training window not interpretable: %r" % (train,), loc)
                 continue
+            if isinstance(test, Vec):
+                c01.prove_le(ctx, "R4", "%s[%s]:yield%d:horizon-fits" % (cname, tag, i), rec.facts, test.elem("last"), N - 1,
+                             "a window/horizon that does not fit the series is rejected (last test position inside the series)", loc)
             pr = rec.facts.entails(Lin.c(0) - train.lo)
             if pr is not None:
                 ctx.ok("R4", key, "guards entail window start %r >= 0" % train.lo, loc)
@@ -934,7 +943,9 @@ def rule_R6(ctx, repo):
     cls, fn, pc = table("_RequiredForecastingHorizonMixin")
     loc = ctx.loc(mod, fn)
     ats = atoms_of_formula(pc.raises)
-    eq_atoms = [a for a in ats if "array_equal" in a or a.startswith("eq(")]
+    eq_atoms = [a for a in ats if ("self._fh" in a and "fh" in a.replace("self._fh", "")) and
+                (a.startswith("eq(") or any(a.startswith(p_) or ("." + p_) in a.split("(")[0] + "(" for p_ in
+                                            ("np.array_equal(", "np.array_equiv(", "array_equal(")) or ".equals(" in a)]
     ok = None
     if len(eq_atoms) == 1:
         EQ = atom(eq_atoms[0])
